@@ -30,4 +30,18 @@ CLAIMS = {
              "relative timing of clears are not decided.",
         technique="taint of **kwargs into post_queue; CFG must-pass/dominance/facts for wait-clear typestate; table agreement",
         ref="4/C02"),
+    "C03": dict(
+        text="Static analysis of structural necessary conditions in the switch controller: every time expression is "
+             "dimensionally consistent (clock seconds vs. milliseconds; deadline = last change + hold/1000; the "
+             "mid-interval catch-up test compares clock seconds and arms only deadlines still ahead, for the current "
+             "state); every effect of a report (state/hw_state/last_change stores, cancel, handler calls, monitors) "
+             "is dominated by the not-a-duplicate side of the state test; the two NC inversion branches flip exactly "
+             "one variable each, before the duplicate test; timed handlers of the old state are cancelled before the "
+             "new state's handlers are armed/called; handler lists are iterated as snapshots with cancelled / "
+             "membership re-checks; due test, delete-after-fire and earliest-deadline rescheduling; a scheduled "
+             "wake-up is only replaced after unscheduling it; remove purges both stores with the exact match key; "
+             "switch events are posted for the new state. Exactly-once over arbitrary timelines, coincident "
+             "deadlines and recycle windows are not decided.",
+        technique="unit (dimension) inference; CFG dominance/guards; feasible-path enumeration; snapshot-iteration rule",
+        ref="4/C03"),
 }
